@@ -161,3 +161,158 @@ func TestVerifC05ClientSend(t *testing.T) {
 		}
 	}
 }
+
+// ---- stateful session: several messages through ONE udpConn, some cut short mid-send ----
+
+type vfC05SessIO struct {
+	limit    int
+	failAt   map[int]bool // call numbers (1-based) that fail with a plain error
+	shrinkAt map[int]int  // call number -> new (smaller) limit from then on
+	calls    int
+	out      [][]byte // every datagram that left, in order
+}
+
+func (f *vfC05SessIO) send(buf []byte, m *protocol.UDPMessage) error {
+	f.calls++
+	if nl, ok := f.shrinkAt[f.calls]; ok {
+		f.limit = nl
+	}
+	if f.failAt[f.calls] {
+		return fmt.Errorf("vf: injected send failure at call %d", f.calls)
+	}
+	n := m.Serialize(buf)
+	if n < 0 {
+		return nil
+	}
+	if n > f.limit {
+		return &quic.DatagramTooLargeError{MaxDatagramPayloadSize: int64(f.limit)}
+	}
+	f.out = append(f.out, append([]byte(nil), buf[:n]...))
+	return nil
+}
+
+// TestVerifC05ClientSession: the far side keeps one reassembler per session. Whatever the
+// sender does after a message was cut short mid-send (send error, datagram limit shrinking
+// between two fragments), everything the far side emits must be one of the messages handed to
+// Send, byte-identical, and a message whose fragments all left must be delivered.
+func TestVerifC05ClientSession(t *testing.T) {
+	k := vfNewKit(t, "C05", "client-session")
+	defer k.Finish()
+	n := k.N(1500, 30000)
+	buf := make([]byte, protocol.MaxUDPSize)
+	wrongEmissions := 0
+	var firstWrong map[string]any
+	for i := 0; i < n; i++ {
+		caseID := fmt.Sprintf("sess-%d", i)
+		if rc := k.ReplayCase(); rc != "" && rc != caseID {
+			continue
+		}
+		r := k.Rand(caseID)
+		k.Eval()
+		addr := fmt.Sprintf("h%d.verif:%d", i, 1000+r.Intn(60000))
+		hdr := (&protocol.UDPMessage{Addr: addr}).HeaderSize()
+		budget := 20 + r.Intn(300)
+		io := &vfC05SessIO{limit: hdr + budget, failAt: map[int]bool{}, shrinkAt: map[int]int{}}
+		uc := &udpConn{ID: uint32(i + 1), D: &frag.Defragger{}, SendBuf: buf, SendFunc: io.send, CloseFunc: func() {}}
+		nmsg := 4 + r.Intn(8)
+		fragClass := 2 + r.Intn(4) // most messages of a session need the same number of fragments
+		type sent struct {
+			payload  []byte
+			complete bool // Send returned nil and at least one datagram left for it
+			outFrom  int
+			outTo    int
+		}
+		var msgs []sent
+		var script []map[string]any
+		for j := 0; j < nmsg; j++ {
+			fc := fragClass
+			if r.Intn(4) == 0 {
+				fc = 1 + r.Intn(6)
+			}
+			plen := (fc-1)*budget + 1 + r.Intn(budget)
+			if fc == 1 {
+				plen = 1 + r.Intn(budget)
+			}
+			payload := vfC05Payload(uint32(i*64+j), plen)
+			// fault plan for this message: calls are numbered globally; the first call of a
+			// fragmented message is the whole-message attempt (TooLarge), then the fragments.
+			base := io.calls
+			fault := "none"
+			if fc > 1 {
+				switch r.Intn(5) {
+				case 0: // plain error on one of the later fragments
+					io.failAt[base+2+1+r.Intn(fc-1)] = true
+					fault = "send-error-mid-message"
+				case 1: // the datagram limit shrinks between two fragments
+					io.shrinkAt[base+2+1+r.Intn(fc-1)] = hdr + 1 + r.Intn(budget-1)
+					fault = "limit-shrinks-mid-message"
+				}
+			}
+			from := len(io.out)
+			var err error
+			rep := map[string]any{"case_id": caseID, "msg": j, "payload_len": plen, "limit": io.limit, "fault": fault}
+			if k.Guard("send:udpConn.Send-panic", rep, func() { err = uc.Send(payload, addr) }) {
+				break
+			}
+			// restore the limit for the next message (the path MTU recovered)
+			io.limit = hdr + budget
+			msgs = append(msgs, sent{payload: append([]byte(nil), payload...), complete: err == nil && len(io.out) > from, outFrom: from, outTo: len(io.out)})
+			script = append(script, map[string]any{"msg": j, "len": plen, "frags": fc, "fault": fault, "err": fmt.Sprint(err), "datagrams": len(io.out) - from})
+		}
+		// far side: one reassembler for the session, datagrams arrive in the order they left
+		d := &frag.Defragger{}
+		delivered := make([]int, len(msgs))
+		for di, raw := range io.out {
+			m, perr := protocol.ParseUDPMessage(append([]byte(nil), raw...))
+			if perr != nil {
+				k.Violation("send:datagram-unparsable", map[string]any{"case_id": caseID, "script": script}, "datagram %d does not parse: %v", di, perr)
+				break
+			}
+			k.Count("ev_session_datagrams", 1)
+			out := d.Feed(m)
+			if out == nil {
+				continue
+			}
+			match := -1
+			for mi, s := range msgs {
+				if out.Addr == addr && bytes.Equal(out.Data, s.payload) {
+					match = mi
+				}
+			}
+			if match < 0 {
+				wrongEmissions++
+				if firstWrong == nil {
+					firstWrong = map[string]any{"case_id": caseID, "script": script, "emitted_len": len(out.Data), "packet_id": out.PacketID, "at_datagram": di}
+				}
+				continue
+			}
+			delivered[match]++
+			k.Count("ev_session_delivered", 1)
+		}
+		for mi, s := range msgs {
+			if s.complete && delivered[mi] != 1 {
+				// a complete in-order fragment set must come out exactly once — unless a wrong emission
+				// (counted above) swallowed it
+				k.Count("ev_session_complete_not_delivered", 1)
+				if wrongEmissions == 0 {
+					k.Violation("send:complete-message-not-delivered", map[string]any{"case_id": caseID, "script": script, "msg": mi},
+						"message %d left completely (%d datagrams, in order) but was delivered %d times", mi, s.outTo-s.outFrom, delivered[mi])
+				}
+			}
+		}
+		k.Nontrivial(fmt.Sprint(script))
+		if i < 2 {
+			k.Sample(map[string]any{"session": script})
+		}
+	}
+	// A wrong emission needs two messages of one session to share a packet ID. With fresh random IDs
+	// that happens by chance with probability ~1/65535 per partial message, so a single occurrence in
+	// a run cannot be told from bad luck (inconclusive); two or more cannot be luck (< 1e-4).
+	k.Count("ev_session_wrong_emissions", int64(wrongEmissions))
+	if wrongEmissions >= 2 {
+		k.Violation("send:far-side-emitted-unsent-payload", firstWrong,
+			"%d times the far side's reassembler emitted a payload that was never handed to Send (first: %v) — messages of one session share packet IDs", wrongEmissions, firstWrong)
+	} else if wrongEmissions == 1 {
+		k.Inconclusive(fmt.Sprintf("one wrong emission (possible 1/65535 packet-ID collision): %v", firstWrong))
+	}
+}
